@@ -597,6 +597,14 @@ class Runner(object):
                            mech=self._mech_wrong_result(k, result, cls), keys=[k])
         # ---- C02 compute-once
         n_eval = s1['nlog'] - s0['nlog']
+        if cfg['safe'] and cls in ('hit', 'load') and n_eval == 1 and '__h__' in repr(self.case['ops'][self.step_i][1:3]) \
+                and mem1 == mem0 and tuple(s1['info'][j] - s0['info'][j] for j in range(3)) == (0, 1, 0):
+            # an argument that cannot be printed / pickled / hashed everywhere (BadRepr & co.): a safe decorator may
+            # degrade to plain evaluation at any internal step that needs repr() or hash() - e.g. CPython formatting
+            # the "x not in deque" message - even though the key itself could be built; that is the documented
+            # behaviour of the safe variants, not a statistics or compute-once defect
+            self.note('calls_degraded_though_keyable')
+            return
         self.note('c02_checks')
         if n_eval and cls != 'degraded' and att0 and sk in self.retr:
             self.violation('C02', 'recomputed-retrievable-result',
